@@ -91,11 +91,30 @@ func c02Programs(ctx *Ctx) [][]tStmt {
 		{{Op: "as", Str: "m"}, {Op: "out"}, {Op: "render", Tpl: map[string]interface{}{"n": "$m.name"}}, {Op: "as", Str: "m"}},
 		{{Op: "as", Str: "m"}, {Op: "out"}, {Op: "as", Str: "m"}, {Op: "out"}, {Op: "has", Has: mname}},
 	}
+	// every edge move followed by every kind of reader of the edge's own properties (each half of bothE loads its edges)
+	wcur := &hExpr{Kind: "cond", Key: "w", Op: "eq", Arg: 2.0}
+	for _, mv := range []string{"inE", "bothE", "outE"} {
+		for _, rd := range [][]tStmt{
+			{{Op: "has", Has: wcur}}, {{Op: "has", Has: wcur}, {Op: "count"}}, {{Op: "hasKey", Strs: []string{"w"}}, {Op: "count"}},
+			{{Op: "unwind", Str: "tags"}}, {{Op: "distinct", Strs: []string{"w"}}, {Op: "count"}}, {{Op: "fields", Strs: []string{"w"}}},
+			{{Op: "render", Tpl: map[string]interface{}{"w": "w", "n": "name"}}},
+			{{Op: "as", Str: "e"}, {Op: "out"}, {Op: "has", Has: w2}, {Op: "count"}},
+			{{Op: "as", Str: "e"}, {Op: "in"}, {Op: "select", Strs: []string{"e"}}, {Op: "has", Has: wcur}, {Op: "count"}},
+			{{Op: "as", Str: "e"}, {Op: "in"}, {Op: "select", Strs: []string{"e"}}, {Op: "out"}},
+			{{Op: "as", Str: "e"}, {Op: "out"}, {Op: "select", Strs: []string{"e"}}, {Op: "distinct", Strs: []string{"w"}}, {Op: "count"}},
+		} {
+			tails = append(tails, append([]tStmt{{Op: mv}}, rd...))
+		}
+	}
+	nOld := len(tails) - 33
 	out := [][]tStmt{}
-	for _, s := range starts {
-		for _, t := range tails {
+	for si, s := range starts {
+		for ti, t := range tails {
+			if ti >= nOld && si%5 != 0 { // the edge-reader tails behind every fifth start shape
+				continue
+			}
 			p := append(append([]tStmt{}, s...), t...)
-			if genType(s) == "edge" && len(t) > 0 && (t[0].Op == "outE" || t[0].Op == "bothE") {
+			if genType(s) == "edge" && len(t) > 0 && (t[0].Op == "outE" || t[0].Op == "bothE" || t[0].Op == "inE") {
 				continue
 			}
 			out = append(out, p)
